@@ -29,6 +29,7 @@ type Prog struct {
 	mods   *modInfo
 	impls  map[string][]*ssa.Function
 	srcFns []*ssa.Function
+	serve  *serveResult
 
 	NFuncs int
 }
